@@ -154,6 +154,18 @@ fn exact(t: SType, address: Option<String>) -> BtcExpect {
 }
 
 pub fn btc_expect(s: &[u8], testnet: bool) -> BtcExpect {
+    let mut e = btc_expect_inner(s, testnet);
+    // Bitcoin's own notion of 'provably unspendable' (CScript::IsUnspendable) also covers scripts
+    // longer than MAX_SCRIPT_SIZE = 10 000 bytes; the statement does not say which notion it means,
+    // so for such scripts 'Unspendable' is accepted besides the type the other rules give. No
+    // address-bearing template is that long, so the address expectation (none) is unaffected.
+    if s.len() > 10_000 && e.address.is_none() && !e.types.contains(&SType::Unspendable) {
+        e.types.push(SType::Unspendable);
+    }
+    e
+}
+
+fn btc_expect_inner(s: &[u8], testnet: bool) -> BtcExpect {
     let (pkh_ver, sh_ver, hrp) = if testnet { (0x6fu8, 0xc4u8, "tb") } else { (0x00u8, 0x05u8, "bc") };
     let n = s.len();
     if n == 0 {
